@@ -307,8 +307,28 @@ def run(rep: Report, tier: str) -> None:
                 kw = dict(t[2])
                 ok = all(tkey(kw.get(k, ("unk", ""))) == tkey(v) for k, v in wkw.items()) and not any(_bound_kind(v) == "from" for v in kw.values())
                 rep.check(ok, rd, init.module, init.qualname, f"{key.split('.')[-1].lstrip(':')} receives to_date and unfiltered input only", f"{short(n, 100)} receives {dict((k, show(v)[:60]) for k, v in kw.items())}; expected only the to-date and unfiltered input (all history up to the to-date)", loc(n))
+    check_numbering_from_history_start(rep, rd)
     ppu = prog.func("rp2.computed_data", "ComputedData._compute_price_per_unit")
     rep.check("from_date" not in ppu.param_names, rd, ppu.module, ppu.qualname, "average price takes no from-date", "average price now takes a from-date", loc(ppu.node))
+
+
+def check_numbering_from_history_start(rep: Report, rule: str) -> None:
+    """'fraction k of n' of a lot / an event counts every fraction from the beginning of history (up to the to-date): the from-date only hides rows,
+    it never reaches the numbering done in an entry set's _sort_entries."""
+    m = model()
+    prog = m.prog
+    base = prog.cls("rp2.abstract_entry_set", "AbstractEntrySet")
+    seen = 0
+    for ci in prog.subclasses(base):
+        so = ci.methods.get("_sort_entries")
+        if so is None:
+            continue
+        seen += 1
+        rep.analysed(so)
+        uses = [n for n in ast.walk(so.node) if isinstance(n, ast.Attribute) and n.attr in ("from_date", "_from_date")]
+        rep.check(not uses, rule, so.module, so.qualname, f"{ci.name}._sort_entries numbers / orders entries without the from-date", f"{ci.name}._sort_entries reads the from-date ({short(parent(uses[0]) or uses[0], 80) if uses else ''}): the fraction numbers and per-type counts of a filtered set would restart at the window start instead of counting the whole history up to the to-date (a lot sold 1/3 before and 2/3, 3/3 inside the window would be shown as 1/2, 2/2)", loc(uses[0]) if uses else loc(so.node), definite=True)
+    if seen < 2:
+        raise AnalysisError("expected _sort_entries in AbstractEntrySet and GainLossSet")
 
 
 def check_per_copy_state(rep: Report, rc: str) -> None:
